@@ -99,7 +99,20 @@ def r2_stated_invariants(ctx, rep, R='C20.R2'):
                  and c.func.attr in ('remove', 'discard')][0]
         key_s = [norm(t.slice) for t in g.node(st_ins[0]).ast.targets if isinstance(t, ast.Subscript)][0]
         # removal is followed by the insertion of the same key before anything else can happen
-        nxt = [d for d, k in g.succ[rem[0]] if k != 'exc']
+        # (straight-line statements that neither yield nor branch may stand in between: building the
+        # state object first -- ``s = State(); state[n] = s`` -- leaves no point at which a consumer of
+        # the generator, or another iteration, could observe the node in neither place)
+        cur = rem[0]
+        for _ in range(4):
+            nxt = [d for d, k in g.succ[cur] if k != 'exc']
+            if len(nxt) != 1 or nxt[0] == st_ins[0]:
+                break
+            nd = g.node(nxt[0])
+            if nd.kind != 'stmt' or not isinstance(nd.ast, ast.Assign) or \
+                    any(isinstance(x, (ast.Yield, ast.YieldFrom)) for x in ast.walk(nd.ast)) or \
+                    not all(isinstance(t, ast.Name) for t in nd.ast.targets):
+                break
+            cur = nxt[0]
         ok = key_r == key_s and nxt == [st_ins[0]]
     rep.check(ok, R, 'unvisited.remove(n) is immediately followed by state[n] = ...',
               'the invariant "a node is either in unvisited or in state" can break', key='unvisited-state',
